@@ -26,7 +26,11 @@ func TestReplay(t *testing.T) { h.Replay(t) }
 //   endm  = how the run ends
 //   full  = 1: the observer also prints user variables, arrays and rand()
 const program = `
-function observe(tag,   k, n) {
+function observe(tag,   k, n, la) {
+  # a local array is empty on entry, whatever an abandoned call of an earlier run left in its own
+  n = 0; for (k in la) n++
+  printf "%s local-array n=%d len=%d has-p=%d\n", tag, n, length(la), ("p" in la)
+  la[tag] = 1; la["p"] = 2; la[NR] = 3
   # header names first: the getline from "r0" below reads that file's first line as a header row in header mode
   if (hdr) {
     # in BEGIN no header row has been read yet: @"name" is an error there on a fresh interpreter, which would end
@@ -44,7 +48,9 @@ function observe(tag,   k, n) {
   }
 }
 function deep(d) { if (d > 0) return deep(d - 1); return boom(acts) }
-function boom(a,   k) {
+function boom(a,   k, lb) {
+  printf "boom local-array len=%d\n", length(lb)
+  lb["p"] = 1; lb["q"] = 2; lb[a] = 3; lb[NR, 1] = 4
   if (endm == "error-in-function") return 1 / (d_zero + 0)
   if (endm == "error-in-forin") { tmp[1] = 1; for (k in tmp) k = 1 / (d_zero + 0) }
   if (endm == "cancel-in-function") { cancel(); for (k = 0; k < 100000; k++) spin++ }
